@@ -54,6 +54,10 @@ func newRtRigStore(e *Env, dir string, store *metrics.Store, opts ...runtime.Opt
 
 func (r *rtRig) quiesce() bool {
 	if !r.e.S.Run(2000000) {
+		if r.e.S.Livelock != "" {
+			r.e.Fail("livelock", "a goroutine spins without ever blocking: %s", r.e.S.Livelock)
+			return false
+		}
 		r.e.Fail("not-quiescent", "runtime did not become quiescent within the step budget (%d steps); live: %s", r.e.S.Steps, liveString(r.e))
 		return false
 	}
